@@ -31,6 +31,27 @@ NOT_CSS_REPRESENTABLE = {
     "params_contain_silent_comment_and_semicolon": "unknown at-rule whose params are the source text `$btn-…`",
 }
 
+# Corpus programs left out of the FIXED-POINT comparison only (well-formedness, Sass-freeness and the charset
+# rule are still checked on them): the first run prints text that is not a CSS value, or that a second
+# Sass run legitimately evaluates further.  Keyed by file:name.
+FIXED_POINT_EXCLUDED = {
+    "addition.rs:unquoted_plus_hex_color": "`foo + #fff` glues an identifier and a colour into the non-value `foo#fff`",
+    "addition.rs:calculation_plus_unquoted_string": "`calc(1px + 1%) + foo` glues a calculation and an identifier",
+    "color.rs:opacity_nan": "the value contains `NaN` (0/0), which is re-read as an identifier",
+    "color.rs:plain_invert_nan": "the value contains `NaN` (0/0), which is re-read as an identifier",
+    "inspect.rs:inspect_null": "prints the text `null`, which re-read as SCSS is the null value",
+    "meta.rs:type_of_null": "prints the text `null`, which re-read as SCSS is the null value",
+    "selectors.rs:parent_selector_is_null_at_root": "prints the text `null`, which re-read as SCSS is the null value",
+    "selector-unify.rs:simple_pseudo_no_arg_element_different": "prints the text `null` (inspect)",
+    "selector-unify.rs:simple_pseudo_arg_element_different_arg": "prints the text `null` (inspect)",
+    "arglist.rs:empty_arglist_is_allowed_in_map_functions": "prints the text `null` (inspect)",
+    "inspect.rs:inspect_comma_separated_one_val_bracketed": "prints inspect() text `[1,]`",
+    "special-functions.rs:calc_evaluates_interpolated_arithmetic": "interpolation keeps `calc(3)` unevaluated in the first run; the second run simplifies it to the equal value 3",
+    "special-functions.rs:calc_operation_rhs_is_interpolation": "`calc(100% + (4px))`: the second run drops the redundant parentheses",
+    "min-max.rs:max_not_evaluated_interpolation": "interpolation keeps `max(1%, 2%)` unevaluated; the second run evaluates it to the equal value 2%",
+    "min-max.rs:min_not_evaluated_interpolation": "interpolation keeps `min(1%, 2%)` unevaluated; the second run evaluates it to the equal value 1%",
+}
+
 # minimised past failures / regression seeds (source nodes of c05_common); run first on every run
 CORPUS = [
     # compressed: a dropped comment after the last declaration keeps that declaration's `;`
@@ -44,6 +65,8 @@ CORPUS = [
      ("bubble", [(False, [("cp", [("s", "d")])])], [("decl", "b", False, ("a", ("r", "é")))],
       ("media", False, [(None, "screen", ["(not (color))"], True)], [("decl", "k", False, ("a", ("r", "c")))])),
      ("import", '"a.css"', None), ("at", False, "foo", "a", False, [])],
+    # finding C05-F1: `#{` inside a quoted string is printed raw and re-read as interpolation
+    [("rule", True, [(False, [("cp", [("s", "a")])])], [("decl", "b", False, ("a", ("qs", "#{c}")))])],
 ]
 
 
@@ -176,11 +199,12 @@ def direct(ck, pool, progs, label, gate=False):
         # operational definition of "made of CSS-representable values" for programs we did not build
         # from CSS tokens ourselves: grass's plain-CSS parser accepts the expanded output.
         for (i, st, syn, st2), a in zip(sowner, sec):
-            if st is None and syn == "css" and st2 is None and a.get("status") != "ok":
-                progs[i]["gated"] = True
+            if st is None and syn == "css" and st2 is None and a.get("status") != "ok" and not progs[i].get("gated"):
+                progs[i]["gated"] = "css"
         for p in progs:
             if not p.get("skip"):
-                ck.hist(f"{label}:gate:" + ("not-css-representable(skipped fixed point)" if p.get("gated") else "css-representable"))
+                ck.hist(f"{label}:gate:" + ("excluded-by-name" if p.get("gated") is True else
+                                            "not-css-representable(skipped fixed point)" if p.get("gated") else "css-representable"))
     for (i, st, syn, st2), a in zip(sowner, sec):
         p = progs[i]
         if p.get("gated"):
@@ -195,12 +219,13 @@ def direct(ck, pool, progs, label, gate=False):
                           "second_error": (a.get("err") or {}).get("message") or a.get("panic")})
             continue
         try:
-            colors = st != st2
-            t1 = cc.canon_css(css, colors)
-            t2 = cc.canon_css(a["css"], colors)
+            # spellings are canonicalised even when both runs use the same style: text produced during
+            # evaluation (interpolation) is always in expanded spelling and is re-spelled by a compressed re-run
+            t1 = cc.canon_css(css, True)
+            t2 = cc.canon_css(a["css"], True)
         except cssread.IllFormed:
             continue     # already reported above
-        if t1 != t2:
+        if not cc.canon_equal(t1, t2):
             fails.append({"key": p["key"], "src": p["src"], "what": "recompiled output has a different rule list", "cfg": cfg, "tags": tags,
                           "output": css, "second_output": a["css"], "diff": cc.first_diff(t1, t2)})
         elif st == st2 and syn == "css":
@@ -225,7 +250,9 @@ def corpus_progs(ck, tier):
         idx = list(range(len(cs)))
         ck.rng.shuffle(idx)
         cs = [cs[i] for i in sorted(idx[:1500])]
-    return [{"key": f"corpus:{c['file']}:{c['name']}", "src": c["input"], "syntax": c["options"].get("syntax")} for c in cs]
+    ck.cov["corpus_excluded_from_fixed_point_only"] = sorted(FIXED_POINT_EXCLUDED)
+    return [{"key": f"corpus:{c['file']}:{c['name']}", "src": c["input"], "syntax": c["options"].get("syntax"),
+             "gated": f"{c['file']}:{c['name']}" in FIXED_POINT_EXCLUDED} for c in cs]
 
 
 def shrink_nodes(nodes, still_fails, budget=60):
